@@ -303,14 +303,19 @@ class IsolationOracle(Oracle):
                     concat_groups.add(grand.get("parent"))
         for key, subs in sorted(changed.items()):
             root_new = f"Groups/{model.root}" not in self.pre[h]
-            verdict = self.allowed(key, subs, touch, parents, created, removed, zombie, used_types, touched_types, concat_groups, model, root_new)
+            # a copy discarded by copy_from_extent (nothing selected) may leave the shared type it introduced
+            type_intro = op["k"] == "copy_extent" and key.split("/")[-1] in {r["type_uid"] for hh in world.h.values() for r in hh.model.recs.values()}
+            type_edit = getattr(world, "last_type", None)
+            if type_edit and type_edit[0] == h and key == type_edit[1] and ok_op:
+                continue
+            verdict = self.allowed(key, subs, touch, parents, created, removed, zombie, used_types, touched_types, concat_groups, model, root_new, type_intro)
             if not verdict:
                 kind = op["k"] if ok_op else f"{op['k']}:{outcome.split(':')[0]}"
                 raise Violation("C09", "collateral_write", f"{op['k']} ({outcome}) changed {key} {sorted(subs)}",
                                 {"op": kind, "node": key.split('/')[0], "subs": ",".join(sorted(s.split(':')[0] for s in subs))})
 
     @staticmethod
-    def allowed(key, subs, touch, parents, created, removed, zombie, used_types, touched_types, concat_groups, model, root_new=False) -> bool:
+    def allowed(key, subs, touch, parents, created, removed, zombie, used_types, touched_types, concat_groups, model, root_new=False, type_intro=False) -> bool:
         parts = key.split("/")
         if key == "project":
             return subs <= {"root", "top"} and root_new
@@ -330,7 +335,7 @@ class IsolationOracle(Oracle):
         if parts[0] == "T":
             uid = parts[-1]
             if subs == {"+"}:
-                return uid in used_types
+                return uid in used_types or type_intro
             if subs == {"-"}:
                 return uid not in used_types
             if subs == {"stats"}:
@@ -449,7 +454,7 @@ class CopyOracle(Oracle):
             kids = {c: self.sig(recs, c) for c in rec["children"] if c in recs}
             body["children"] = sorted(kids.values())
             body["pgs"] = sorted(
-                rawgeoh5.sha([p["name"], p["assoc"], p["type"], sorted(kids.get(x, "?") for x in p["props"])])
+                rawgeoh5.sha([p["name"], p["assoc"], p["type"], [kids.get(x, "?") for x in p["props"]]])
                 for p in rec.get("pgs", {}).values())
         return rawgeoh5.sha(_num_norm(body))
 
@@ -487,8 +492,8 @@ class CopyOracle(Oracle):
                 raise Violation("C12", "copy_differs", f"{cls}: subtree of child {sk['name']!r} differs in the copy", {"cls": cls, "field": "children", "child": sk["cls"]})
             extra = next(iter(pool))
             raise Violation("C12", "copy_differs", f"{cls}: extra child {new[extra]['name']!r} in the copy", {"cls": cls, "field": "children"})
-        s_pgs = sorted(rawgeoh5.sha([p["name"], p["assoc"], p["type"], sorted(s_sigs.get(x, "?") for x in p["props"])]) for p in s.get("pgs", {}).values())
-        d_pgs = sorted(rawgeoh5.sha([p["name"], p["assoc"], p["type"], sorted(d_sigs.get(x, "?") for x in p["props"])]) for p in d.get("pgs", {}).values())
+        s_pgs = sorted(rawgeoh5.sha([p["name"], p["assoc"], p["type"], [s_sigs.get(x, "?") for x in p["props"]]]) for p in s.get("pgs", {}).values())
+        d_pgs = sorted(rawgeoh5.sha([p["name"], p["assoc"], p["type"], [d_sigs.get(x, "?") for x in p["props"]]]) for p in d.get("pgs", {}).values())
         if s_pgs != d_pgs:
             raise Violation("C12", "copy_differs", f"{cls}: property groups differ: SRC={list(s.get('pgs', {}).values())} COPY={list(d.get('pgs', {}).values())}",
                             {"cls": cls, "field": "pgs"})
